@@ -14,34 +14,34 @@ import (
 )
 
 var knownSignatures = map[string]string{
-	"K01": "K01-return-trailing-undefined-dropped",
-	"K02": "K02-cond-call-merge-callee-order",
-	"K03": "K03-hasSideEffects-binary",
-	"K04": "K04-lone-class-decl-in-block-dropped",
-	"K05": "K05-isNaN-Math.abs-Math.trunc-rewrite",
-	"K06": "K06-new-callee-parens-dropped",
-	"K07": "K07-lone-lexical-decl-in-block-replaced",
-	"K08": "K08-unicode-escape-backslash-decoded",
-	"K09": "K09-escaped-dollar-brace-in-template",
-	"K10": "K10-long-bigint-literal-loses-suffix",
-	"K11": "K11-logical-assignment-precedence",
-	"K12": "K12-coalesce-group-before-bitor",
-	"K13": "K13-empty-string-isFalsy",
-	"K14": "K14-K15-with-renaming",
-	"K30": "K30-script-end-tag-decoded",
-	"K37": "K37-Math.pow-to-exponent-ungated",
-	"K38": "K38-shorthand-property-ungated",
-	"N01": "N01-numeric-string-property-key-normalised",
-	"N02": "N02-unused-trailing-param-default-dropped",
-	"N03": "N03-optional-chain-group-before-call-dropped",
-	"N04": "N04-integer-literal-string-index-to-dot",
-	"N05": "N05-octal-escape-above-177-raw-byte",
-	"N06": "N06-prefix-update-group-before-exponent",
-	"N07": "N07-grouped-numeric-literal-before-dot",
-	"N08": "N08-isFalsy-misreads-hex-digits",
-	"N09": "N09-nul-or-octal-escape-joined-with-digit",
-	"N10": "N10-comma-group-left-operand-unwrapped",
-	"N11": "N11-dangling-else-after-empty-else-dropped",
+	"K01":  "K01-return-trailing-undefined-dropped",
+	"K02":  "K02-cond-call-merge-callee-order",
+	"K03":  "K03-hasSideEffects-binary",
+	"K04":  "K04-lone-class-decl-in-block-dropped",
+	"K05":  "K05-isNaN-Math.abs-Math.trunc-rewrite",
+	"K06":  "K06-new-callee-parens-dropped",
+	"K07":  "K07-lone-lexical-decl-in-block-replaced",
+	"K08":  "K08-unicode-escape-backslash-decoded",
+	"K09":  "K09-escaped-dollar-brace-in-template",
+	"K10":  "K10-long-bigint-literal-loses-suffix",
+	"K11":  "K11-logical-assignment-precedence",
+	"K12":  "K12-coalesce-group-before-bitor",
+	"K13":  "K13-empty-string-isFalsy",
+	"K14":  "K14-K15-with-renaming",
+	"K30":  "K30-script-end-tag-decoded",
+	"K37":  "K37-Math.pow-to-exponent-ungated",
+	"K38":  "K38-shorthand-property-ungated",
+	"N01":  "N01-numeric-string-property-key-normalised",
+	"N02":  "N02-unused-trailing-param-default-dropped",
+	"N03":  "N03-optional-chain-group-before-call-dropped",
+	"N04":  "N04-integer-literal-string-index-to-dot",
+	"N05":  "N05-octal-escape-above-177-raw-byte",
+	"N06":  "N06-prefix-update-group-before-exponent",
+	"N07":  "N07-grouped-numeric-literal-before-dot",
+	"N08":  "N08-isFalsy-misreads-hex-digits",
+	"N09":  "N09-nul-or-octal-escape-joined-with-digit",
+	"N10":  "N10-comma-group-left-operand-unwrapped",
+	"N11":  "N11-dangling-else-after-empty-else-dropped",
 	"K118": "K118-assignment-to-undefined-or-Infinity",
 }
 
